@@ -37,6 +37,7 @@ EXTRA = {
     "C12": ["phonopy/api_phonopy.py"],  # group velocities are configured and rebuilt by the Phonopy object
     "C15": ["phonopy/phonon/group_velocity.py", "phonopy/harmonic/derivative_dynmat.py"],  # the Phonopy object keeps one GroupVelocity (and its derivative object) across run_qpoints / run_mesh / run_band_structure: what a query leaves behind in it is history
     "C03": ["phonopy/harmonic/dynmat_to_fc.py"],  # the Gonze-Lee dynamical matrix is built from short-range force constants made by this class: its commensurate points decide the acoustic sum rule and the point-group invariance of D(q)
+    "C06": ["phonopy/phonon/qpoints.py"],  # the documented forward step: run_qpoints(commensurate points, with_dynamical_matrices=True) feeds DynmatToForceConstants
     "C08": ["phonopy/harmonic/dynmat_to_fc.py"],  # the Gonze-Lee short-range force constants are made by DynmatToForceConstants from the commensurate points it generates
     "C14": ["phonopy/harmonic/dynamical_matrix.py", "c/dynmat.c", "phonopy/phonon/thermal_properties.py", "phonopy/phonon/dos.py"],  # + the consumers that are handed the mesh object: what they leave behind in it is what the next access route reports  # + the batch kernel itself: q-point lists go through its parallel loop, single q-points do not  # run_dynamical_matrix_solver_c is the batch solver behind run_qpoints / run_mesh / run_band_structure: the q-points reach the kernel through it
     "C09": ["phonopy/structure/symmetry.py", "phonopy/phonon/moment.py", "c/phonopy.c"],  # + the compiled thermal sums and tetrahedron DOS are mesh consumers
